@@ -58,7 +58,7 @@ unsafe fn check_redirect(entry: u64, raw: *const ()) {
 
 macro_rules! stubs {
     ($(#[$m:meta])* fn $name:ident() $body:block) => {
-        stubs! { @unwind 72 $(#[$m])* fn $name() $body }
+        stubs! { @unwind 26 $(#[$m])* fn $name() $body }
     };
     (@unwind $u:literal $(#[$m:meta])* fn $name:ident() $body:block) => {
         $(#[$m])*
@@ -166,7 +166,7 @@ fn async_history_family() {
 }
 }
 
-stubs! { @unwind 44
+stubs! { @unwind 26
 /// the same async function faked twice through the checked API: the latest value is in effect,
 /// the original poll code is back after drop
 fn async_refake_same_function() {
